@@ -344,6 +344,8 @@ def _repo_src():
 
 def build_T13a(tree):
     fn = find_func(tree, 'encode_frame')
+    if fn.decorator_list:
+        raise Unsupported('encode_frame is wrapped by a decorator: what a call returns is no longer decided by its body alone')
     have = [a.arg for a in fn.args.args]
     for p, _ in ENC_PARAMS:
         if p not in have:
@@ -386,6 +388,8 @@ DEC_PARAMS = [('bits_allocated', 'int'), ('samples_per_pixel', 'int'), ('photome
 
 def build_T13c(tree):
     fn = find_func(tree, 'decode_frame')
+    if fn.decorator_list:
+        raise Unsupported('decode_frame is wrapped by a decorator: what a call returns is no longer decided by its body alone')
     have = [a.arg for a in fn.args.args]
     for p, _ in DEC_PARAMS:
         if p not in have:
